@@ -52,6 +52,7 @@ SPAWN = [
     {"kind": "ret", "pauses": 2},
     {"kind": "raise", "pauses": 1},
     {"kind": "grand", "pauses": 1},
+    {"kind": "raise_on_cancel", "pauses": 1},
 ]
 
 
@@ -179,6 +180,20 @@ def execute(program, ch: Chooser) -> Result:  # noqa: C901
         return _check_script(program, ch)
     r = Run(program, ch, cancels=1)
     viols: list[dict] = []
+    waited: list = []
+
+    def on_quiescent() -> None:
+        if waited or not r.w.cancelled_at or r.driver is None or r.driver.done():
+            return
+        if any(d.in_exit or d.in_enter for ds in r.disp.values() for d in ds):
+            return  # waiting for a disposable, not for the tasks
+        if r.phase[0] != "exiting":
+            return
+        blocked = [s["name"] for s in r.all_spawned if s["task"] is not None and not s["task"].done()]
+        if blocked:
+            waited.append(blocked)
+
+    r.w.on_quiescent = on_quiescent
     try:
         r.execute()
         delivered = bool(r.w.cancelled_at)
@@ -200,6 +215,18 @@ def execute(program, ch: Chooser) -> Result:  # noqa: C901
                         f"cancel-lost/{phase[0] if phase else '?'}",
                         "victim ends cancelled",
                         f"victim ended normally (cancel delivered in {where})",
+                        trace=r.w.trace,
+                    )
+                )
+            # once the cancellation was delivered the unwinding never sits waiting for the
+            # voluntary end of spawned tasks (they are cancelled instead)
+            if waited:
+                viols.append(
+                    viol(
+                        "children-cancelled",
+                        f"exit-awaits-children-after-cancel/{phase[0] if phase else '?'}",
+                        "spawned tasks are cancelled when the victim is cancelled",
+                        waited[0],
                         trace=r.w.trace,
                     )
                 )
